@@ -1067,7 +1067,7 @@ def _script_env(case):
     }
 
 
-def run_scripts(cases):
+def run_scripts(ctx, cases):
     """OPTIONS string built by the real helper script for each case (all cases in one bash process)"""
     parts = [SCRIPT_HEAD]
     for i, c in enumerate(cases):
@@ -1076,7 +1076,15 @@ def run_scripts(cases):
         # no subshell per case (fork is expensive on a loaded machine): every variable is re-assigned each time
         parts.append(f"export {exports}; HELPER_NAME={h}; OPTIONS=(); source \"$EBD/helpers/0/src_install/\"{h}; "
                      f"printf '%s\\037%s\\n' {i} \"${{OPTIONS[*]}}\"")
-    r = vebd.bash_eval("\n".join(parts), env={"EBD": vebd.ebd_dir()}, timeout=300)
+    # the script goes through a file: a few hundred cases exceed the kernel's per-argument limit for `bash -c`
+    d = fast_dir(ctx, "scripts")
+    try:
+        sp = os.path.join(d, "driver.bash")
+        with open(sp, "w") as f:
+            f.write("\n".join(parts))
+        r = vebd.bash_eval(f"source {shlex.quote(sp)}", env={"EBD": vebd.ebd_dir()}, timeout=600)
+    finally:
+        shutil.rmtree(d, ignore_errors=True)
     out = {}
     for line in r.stdout.decode("utf8", "replace").splitlines():
         i, sep, v = line.partition("\x1f")
@@ -1105,7 +1113,7 @@ def script_case(draw):
 
 
 def check_scripts(ctx, cases):
-    got_all = run_scripts(cases)
+    got_all = run_scripts(ctx, cases)
     for case, got in zip(cases, got_all):
         h, env = case["helper"], case["env"]
         want = options_line(case)
